@@ -17,7 +17,7 @@ var parallelPairs = [][2]string{{"edges", "children"}, {"schemes", "ports"}}
 
 func checkC01(ctx *Ctx) *Result {
 	r := newResult("C01")
-	r.Explanation = "Necessary conditions of `allowed ⇔ some listed pattern denotes the origin`, decided structurally for all configurations and requests (that the radix tree's Insert/Contains compute set union for every insertion order is NOT decided): (R1.1) glue — on every request path the origin is treated as allowed iff the path carries the allow-all atoms or Parse.ok ∧ Contains(tree of the snapshot, parse of this request's first Origin value), in both directions; (R1.2) every successfully parsed pattern of an accepted configuration is inserted, `*` discards the tree; (R1.3) port-code encoding agreement between siblings: node.add, node.contains and node.elems shift ports and the wildcard-port sentinel by the same constant under the wildcard-subdomain flag, the sentinel exceeds every real port and the shift exceeds the sentinel (disjoint code spaces), and the verdict-deciding call sites pass raw ports; (R1.4) parallel slices edges/children and schemes/ports are only ever updated pairwise, by the same constructor at the same index, and never reordered alone; (R1.5) every path of Tree.Insert ends by adding the pattern's (scheme, port, wildcard flag) to a node, or returns because a wildcard entry already subsumes it; the flag passed is the result of the `*` test; (R1.6) the bytes stripped from the key are exactly the bytes tested; (R1.7) Tree.Contains consults exact entries only when the host is exhausted and wildcard entries only while host bytes remain, descends only along the edge labelled by the host's last byte and only when the child's whole suffix matches."
+	r.Explanation = "Necessary conditions of `allowed ⇔ some listed pattern denotes the origin`, decided structurally for all configurations and requests (that the radix tree's Insert/Contains compute set union for every insertion order is NOT decided): (R1.1) glue — on every request path the origin is treated as allowed iff the path carries the allow-all atoms or Parse.ok ∧ Contains(tree of the snapshot, parse of this request's first Origin value), in both directions; (R1.2) every successfully parsed pattern of an accepted configuration is inserted, `*` discards the tree; (R1.3) port-code encoding agreement between siblings: node.add, node.contains and node.elems shift ports and the wildcard-port sentinel by the same constant under the wildcard-subdomain flag, the sentinel exceeds every real port and the shift exceeds the sentinel (disjoint code spaces), and the verdict-deciding call sites pass raw ports; (R1.4) parallel slices edges/children and schemes/ports are only ever updated pairwise, by the same constructor at the same index, and never reordered alone; (R1.5) every path of Tree.Insert ends by adding the pattern's (scheme, port, wildcard flag) to a node, or returns because a wildcard entry already subsumes it; the flag passed is the result of the `*` test; (R1.6) the bytes stripped from the key are exactly the bytes tested; (R1.7) Tree.Contains consults exact entries only when the host is exhausted and wildcard entries only while host bytes remain, descends only along the edge labelled by the host's last byte and only when the child's whole suffix matches; (R1.14, R8.1) the tree that answers is the one built from the accepted configuration: Config() writes nothing of it and Reconfigure replaces it only when the builder reports no error."
 	r.NotDecided = "the heart of the property: that Insert, Contains and splitAtCommonSuffix implement set union of the patterns' denotations for every insertion order, duplicate, subsuming pattern and shared suffix (data-structure correctness over runtime values)"
 	r.Trusted = append([]string{"slices.BinarySearch, strings.IndexByte, append, copy behave as documented"}, trustedRequestPath...)
 	r.rule("R1.1", "glue equivalence on the request path: allowed-treatment ⇔ allow-all ∨ (Parse.ok ∧ Contains), both directions", 100)
@@ -27,6 +27,18 @@ func checkC01(ctx *Ctx) *Result {
 	r.rule("R1.5", "Insert always adds (or is subsumed by a wildcard entry); wildcard flag = result of the `*` test", 6)
 	r.rule("R1.6", "strip/guard agreement: exactly the tested bytes are dropped from the key", 2)
 	r.rule("R1.7", "Contains: exact entries iff host exhausted, wildcard entries while bytes remain, descend only on full suffix match", 5)
+	// the tree that answers is the tree that was built from the accepted
+	// configuration: it is replaced only by an accepted configuration and
+	// rendering it (Config()) leaves it as it was
+	r.rule("R1.14", "Config() is read-only: nothing reachable from Config()/newConfig writes memory of the configuration it renders (the origin tree answers the same before and after)", 1)
+	renderingReadOnly(ctx, r, "R1.14")
+	r.share(checkC08(ctx), map[string]string{"R7.0": "every function touching the Middleware's state is loop-free and fully summarised; state fields identified by role (mutex, configuration pointer, debug flag)", "R8.1": "Reconfigure: no store to the Middleware's state unless the builder's error is nil (the origins of the still-current accepted configuration stay allowed after a rejected reconfiguration)"}, nil)
+	// "allowed iff the configuration lists `*`": the request path answers
+	// allow-all under ¬credentialed ∧ empty tree, so an accepted configuration
+	// that lists `*` must be one without credentialed access or a PNA mode
+	r.rule("CI-1", "allow-all ⇒ ¬credentialed ∧ no PNA mode, discharged on the validation path: no accepted configuration lists `*` and yet fails the request path's allow-all test", 1)
+	ci1 := ctx.CI1()
+	r.check(ci1 == "", "CI-1", "validation path", "", ci1, 1)
 	// ---- R1.1 -----------------------------------------------------------
 	rt, ok := requestTableGuards(ctx, r)
 	if ok {
